@@ -34,7 +34,8 @@ import facts
 import c19ops
 
 PROP = "C19"
-MODS = ["EmbitModel.Props.C19", "EmbitModel.Props.C19Facts", "EmbitModel.Props.C19X", "EmbitModel.Props.C19Y"]
+MODS = ["EmbitModel.Props.C19", "EmbitModel.Props.C19Facts", "EmbitModel.Props.C19X", "EmbitModel.Props.C19Y",
+        "EmbitModel.Props.C19Complete"]
 ZYGOTE = os.path.join(os.path.dirname(os.path.dirname(os.path.abspath(__file__))), "c19zygote.py")
 FINDING_SITES = "D31"
 
@@ -1215,6 +1216,32 @@ def crosscheck(c, zyg, n):
                 c.broken.append(("harness", "fork server child and a new interpreter disagree on %s" % json.dumps(ops[k])))
 
 
+def completeness(c):
+    """the obligations of Props/C19Complete.lean evaluated in Python on this run's tables and this run's independent
+    enumeration (harness/aliasnames.py, written to Generated/AliasNames.lean by the same generator), for the messages"""
+    info = facts.LAST_ALIAS_NAMES
+    if not info:
+        return
+    sites = {s[0]: s for s in parse_sites()}
+    shared = {s[0]: s for s in parse_shared_sites()}
+    for q in info.get("unscanned", []):
+        c.broken.append(("facts", "completeness: function %s is alive in the loaded package but the translator did not "
+                                  "analyse it (every_reachable_function_scanned)" % q))
+    for m in info.get("mutable_defaults", []):
+        if m not in sites:
+            c.broken.append(("facts", "completeness: the default value of %s is a mutable object but the table has no site "
+                                      "for it (every_mutable_default_has_a_safe_site)" % m))
+    for names in info.get("shared_objects", []):
+        if not any(("obj:" + n) in shared for n in names):
+            c.broken.append(("facts", "completeness: the module- / class-level mutable object %s has no site in the table "
+                                      "(every_shared_object_has_a_safe_site)" % " = ".join(names)))
+    c.extra["enumeration"] = {"live_functions": info.get("reachable"), "analysed_loaded": info.get("scanned_loaded"),
+                              "analysed_source_only": info.get("scanned_ast_only"),
+                              "mutable_defaults": len(info.get("mutable_defaults", [])),
+                              "shared_objects": len(info.get("shared_objects", [])),
+                              "not_analysed": info.get("unscanned", [])}
+
+
 def run(tier, seed):
     c = Check(PROP, MODS, tier, seed)
     c.rule = ("seeded random histories of 8-22 public operations over a pool of real objects (Transaction, Witness, PSBT, PSBT and "
@@ -1240,6 +1267,8 @@ def run(tier, seed):
     elif changed:
         c.extra["facts_drift"] = ("Generated/AliasFacts.lean differed from the loaded modules and was rewritten; the theorems over it "
                                   "(facts_safe_partial, embit_descriptors_safe) and the driver are rebuilt by this run")
+    if not histories_only and not err:
+        completeness(c)
     c.build_and_audit()
     if histories_only:
         c.extra["histories_only"] = True
@@ -1284,9 +1313,53 @@ def run(tier, seed):
     return rc
 
 
+def probe_unlisted_defaults(c):
+    """mutable default values the independent enumeration found and the table has no site for (the translator lost the
+    function): call the function directly with the default left out and look at the default object"""
+    import importlib
+    import inspect
+    import aliasfacts
+    sites = {s[0] for s in parse_sites()}
+    for m in facts.LAST_ALIAS_NAMES.get("mutable_defaults", []):
+        if m in sites:
+            continue
+        path, param = m[:-1].split("(")
+        parts = ("embit." + path).split(".")
+        obj, owner, f = None, None, None
+        for i in range(len(parts) - 1, 0, -1):
+            try:
+                obj = importlib.import_module(".".join(parts[:i]))
+            except Exception:
+                continue
+            try:
+                for a in parts[i:]:
+                    owner, obj = (obj if isinstance(obj, type) else None), inspect.getattr_static(obj, a)
+                f = obj.__func__ if isinstance(obj, (classmethod, staticmethod)) else obj
+            except AttributeError:
+                f = None
+            break
+        if not inspect.isfunction(f):
+            continue
+        dflt = inspect.signature(f).parameters[param].default
+        try:
+            res, txt = aliasfacts.probe_default_by_calls(f, owner, dflt)
+        except Exception as e:
+            res, txt = "notProbed", "%s: %s" % (type(e).__name__, e)
+        if res == "confirmedUnsafe":
+            c.fail("unsafe default %s (absent from the extracted table): %s" % (m, txt),
+                   {"op": "site", "site": m, "kind": "mutable default found by the independent enumeration only",
+                    "probe": res, "evidence": txt, "theorem": "every_mutable_default_has_a_safe_site"})
+
+
 def search(c, zyg, abstraction):
     """failing-input search when an obligation (facts / build / model correspondence) is broken: more and longer
     histories, biased to the operations around defaults, memos and arguments"""
+    try:
+        probe_unlisted_defaults(c)
+    except Exception as e:
+        c.extra["unlisted_default_probe_error"] = "%s: %s" % (type(e).__name__, e)
+    if c.violations:
+        return
     explore(c, zyg, 400 if c.tier == "quick" else 4000, abstraction, lo=6, hi=30, kind="search")
 
 
